@@ -103,6 +103,28 @@ type c14Case struct {
 	// with a selection: `bug rm` with an id that never existed / a mistyped prefix comes after the removal (and its
 	// repetition) instead of before
 	BadIdsAfter bool `json:"unknown_ids_after_the_removal,omitempty"`
+	// Scale cases (c14_scale.go): 11..40 entities in the victim's namespace. Scale labels the family in the shape
+	// ("among-many": a single victim removed among many; "remove-all": RemoveAll of the whole population).
+	Scale string `json:"scale,omitempty"`
+	// a cache rebuild after the removal deletes the cache files only and meets the search index the earlier sessions left
+	// (false: cache files and index directory are both deleted, the rebuild starts from nothing)
+	KeepIndex bool `json:"rebuild_keeps_the_index,omitempty"`
+	// Api cache-removeall / entity-removeall: what is removed - "all" (bugs and identities) | "bugs" (the bugs only)
+	Scope string `json:"scope,omitempty"`
+	// Api cache-removeall: after RemoveAll a new identity and a new bug (holding the marker every removed bug held) are
+	// created in the same session
+	Recreate bool `json:"recreate_in_the_same_session,omitempty"`
+	// Live cases (c14_scale.go): ONE repository handle (GoGitRepo, with Api cache*: the RepoCache over it) stays open while
+	// stock git changes the remote configuration under it, before the removal is asked of the same handle:
+	//   add         `git remote add late <url of a new, empty repository>`; the handle pushes everything to late
+	//   add-fetch   the same, and the handle fetches from late afterwards
+	//   rename      `git remote rename <the first holding remote> renamed`; the handle fetches from renamed
+	//   remove      `git remote remove <the first remote>` (git deletes its remote-tracking refs)
+	//   remove-add  `git remote remove <the first holding remote>`, `git remote add fresh <the same url>`; the handle fetches from fresh
+	// Warm: what the handle did with its remote list before the change: none | get-remotes (GetRemotes, as the shell
+	// completion and the bridge configuration do) | decoy-removal (another entity was removed through the same handle and API)
+	Live string `json:"remotes_changed_under_the_handle,omitempty"`
+	Warm string `json:"handle_used_its_remotes_before,omitempty"`
 }
 
 const (
@@ -238,6 +260,16 @@ type c14Env struct {
 	asked        string // set around a frame that follows a command which was not the removal of the victim: what was asked
 	skipRound2   bool   // the population is no longer the expected one (a removal without argument was accepted)
 	extraBareURL string // an existing, empty repository: second url / pushurl / url of the ghost
+
+	// live cases: the remotes that hold the victim after the configuration changed (nil: by cs.Holds), the remote the
+	// change produced ("" for remove), and the entity removed first through the same handle (decoy-removal)
+	liveHolds   map[string]bool
+	liveRemote  string
+	decoy       string
+	commonMk    string   // remove-all cases: a marker token every bug holds
+	removedAll  []string // remove-all cases: the ids RemoveAll has to make disappear
+	recreated   []string // remove-all cases: refs created after RemoveAll in the same session
+	removeAllNs []string // remove-all cases: the namespaces RemoveAll empties
 }
 
 func (e *c14Env) count(k string, n int) { e.res.Counters[k] += n }
@@ -290,6 +322,17 @@ func (e *c14Env) finding(key, what string, aboutRef ...string) {
 	if e.cs.Select != "" {
 		key += ":selected=" + e.cs.Select
 	}
+	if e.cs.Live != "" {
+		// a finding about a remote-tracking ref of the remote the configuration change produced says so, every other
+		// finding of a live case says that the remotes changed under the handle
+		suffix := ":remotes-changed-under-the-handle=" + e.cs.Live
+		if len(aboutRef) > 0 && e.liveRemote != "" {
+			if remote, _, _, ok := e.remoteOfRef(aboutRef[0]); ok && remote == e.liveRemote {
+				suffix = ":remote-configured-under-the-handle=" + e.cs.Live
+			}
+		}
+		key += suffix
+	}
 	if parts := strings.Split(key, ":"); parts[0] == "remove" {
 		// the state the victim was in when this removal was asked for (nothing appended for an entity that exists locally
 		// and is removed for the first time: the keys of that class are unchanged)
@@ -303,7 +346,7 @@ func (e *c14Env) finding(key, what string, aboutRef ...string) {
 	parts := strings.Split(key, ":")
 	stage := ""
 	switch {
-	case parts[0] == "remove" && len(parts) > 3:
+	case (parts[0] == "remove" || parts[0] == "removeall") && len(parts) > 3:
 		stage = parts[3]
 	case parts[0] == "wipe" && len(parts) > 1:
 		stage = parts[1]
@@ -986,6 +1029,10 @@ func (e *c14Env) session(expBugs, expIdents []string) (*c14CacheObs, error) {
 
 func (e *c14Env) dropCacheFiles() error {
 	for _, d := range []string{"cache", "indexes"} {
+		if d == "indexes" && e.cs.KeepIndex {
+			e.count("rebuilds_over_the_index_of_earlier_sessions", 1)
+			continue
+		}
 		if err := os.RemoveAll(filepath.Join(e.T.Dir, ".git", "git-bug", d)); err != nil {
 			return err
 		}
@@ -1203,10 +1250,15 @@ func (e *c14Env) build() error {
 
 	var victimBug *bug.Bug
 	var victimIdent *identity.Identity
+	common := "" // remove-all cases: a token every bug holds (in its title)
+	if cs.Scale == c14RemoveAll {
+		e.commonMk = c14Marker(99, 'c')
+		common = " " + e.commonMk
+	}
 	if cs.Kind == "bug" {
 		e.ns = "bugs"
 		m1, m2 := c14Marker(0, 'v'), c14Marker(0, 'w')
-		victimBug, _, err = bug.Create(author(), w.Now(), "victim "+m1, "victim message", nil, nil)
+		victimBug, _, err = bug.Create(author(), w.Now(), "victim "+m1+common, "victim message", nil, nil)
 		if err != nil {
 			return err
 		}
@@ -1220,7 +1272,7 @@ func (e *c14Env) build() error {
 		e.victimMk = []string{m1, m2}
 		for i := 0; i < cs.Others; i++ {
 			m := c14Marker(i+1, 'o')
-			title := fmt.Sprintf("other %d %s", i, m)
+			title := fmt.Sprintf("other %d %s", i, m) + common
 			var op *bug.CreateOperation
 			if i < len(cs.SharedK) {
 				op, _ = engCreateOp(author(), w.Now(), title, "message of "+title, e.victim[:cs.SharedK[i]])
@@ -1280,7 +1332,7 @@ func (e *c14Env) build() error {
 		// bystander bugs
 		for i := 0; i < 2+rng.Intn(2); i++ {
 			m := c14Marker(i+1, 'o')
-			title := fmt.Sprintf("bystander %d %s", i, m)
+			title := fmt.Sprintf("bystander %d %s", i, m) + common
 			var op *bug.CreateOperation
 			if i == 0 && cs.CrossK > 0 {
 				op, _ = engCreateOp(author(), w.Now(), title, "message of "+title, e.victim[:cs.CrossK])
@@ -1386,7 +1438,7 @@ func (e *c14Env) editVictim(rng interface{ Intn(int) int }, r *world.Replica, ta
 	if e.cs.Kind == "bug" {
 		return e.w.Edit(r, entity.Id(e.victim), []world.OpSpec{
 			{Kind: "comment", Text: "edit " + tag, Author: rng.Intn(2)},
-			{Kind: "title", Text: "victim " + e.victimMk[0] + " retitled " + tag, Author: rng.Intn(2)},
+			{Kind: "title", Text: strings.TrimSpace("victim " + e.victimMk[0] + " retitled " + tag + " " + e.commonMk), Author: rng.Intn(2)},
 		})
 	}
 	i, err := identity.ReadLocal(r.Repo, entity.Id(e.victim))
@@ -1677,6 +1729,9 @@ func (e *c14Env) preconditions(before c14Raw) bool {
 	for i, r := range e.remotes {
 		_, has := before.Refs["refs/remotes/"+r+"/"+e.ns+"/"+e.victim]
 		want := e.cs.Holds&(1<<i) != 0
+		if e.liveHolds != nil {
+			want = e.liveHolds[r]
+		}
 		if has != want {
 			e.inconclusive(fmt.Sprintf("remote-tracking ref of the victim for %s: present=%v, the configuration wants %v", r, has, want))
 			return false
@@ -2464,6 +2519,7 @@ func c14Run(cs c14Case) c14Result {
 	if cs.Select != "" {
 		res.Shape += "/selected=" + cs.Select + map[bool]string{true: "/unknown-ids-after", false: ""}[cs.BadIdsAfter]
 	}
+	res.Shape += c14ScaleShape(cs)
 	if err := e.build(); err != nil {
 		res.HarnessError = "build: " + err.Error()
 		return finish()
@@ -2471,6 +2527,16 @@ func c14Run(cs c14Case) c14Result {
 	e.count("other_entities", len(e.bugIds)+len(e.identIds)-1)
 	e.seen("remote_configurations", fmt.Sprintf("remotes=%d holds=%03b", cs.Remotes, cs.Holds))
 	e.round = 1
+	switch {
+	case cs.Api == "cache-removeall" || cs.Api == "entity-removeall":
+		e.runRemoveAll()
+		res.Sample = map[string]any{"case": cs, "victim": e.victim, "bugs": len(e.bugIds), "identities": len(e.identIds)}
+		return finish()
+	case cs.Live != "":
+		e.runLive()
+		res.Sample = map[string]any{"case": cs, "victim": e.victim, "bugs": len(e.bugIds), "identities": len(e.identIds)}
+		return finish()
+	}
 	switch cs.Api {
 	case "entity":
 		e.runEntityAPI()
@@ -2574,7 +2640,9 @@ func c14Cases(r *mon.Run) []c14Case {
 	out = append(out, c14StateCases(r, len(out))...)
 	out = append(out, c14NameCases(r, len(out))...)
 	out = append(out, c14ConfigCases(r, len(out))...)
-	return append(out, c14SelectCases(r, len(out))...)
+	out = append(out, c14SelectCases(r, len(out))...)
+	out = append(out, c14ScaleCases(r, len(out))...)
+	return append(out, c14LiveCases(r, len(out))...)
 }
 
 // c14ConfigSets: remote configurations that `git remote` produces and that are not "every name has a URL of its own":
@@ -2880,6 +2948,7 @@ func runC14(tier, replay string) int {
 	cfgRemoved := map[string]int{}   // <kind>/<class of the remote's configuration> -> the same
 	cfgWiped := map[string]int{}     // configuration set -> clean wipes
 	selJudged := map[string]int{}    // selection -> CLI removals followed through to the removal without id
+	scaleTot := map[string]int{}     // counters of the scale and live cases (c14_scale.go), summed over the judged cases
 	outcomes := runBatchesRetry[c14Case, c14Result](r, "c14", cases, 3, 3*time.Minute)
 	for i, oc := range outcomes {
 		cs := cases[i]
@@ -2938,8 +3007,23 @@ func runC14(tier, replay string) int {
 			}
 		}
 		r.Seen("history_points", fmt.Sprintf("%s/point%d", cs.Api, cs.Point))
+		if cs.Scale != "" {
+			r.Count("cases_by_scale/"+cs.Scale+"/"+cs.Api+"/"+cs.Kind, 1)
+			if cs.Scale == c14AmongMany && res.Nontrivial && len(res.Inconclusive) == 0 {
+				scaleTot["among-many/"+cs.Api]++
+				if cs.KeepIndex && res.Counters["rebuilds_over_the_index_of_earlier_sessions"] > 0 {
+					scaleTot["among-many/rebuild-over-index"]++
+				}
+			}
+		}
+		if cs.Live != "" {
+			r.Count("cases_by_remote_change_under_the_handle/"+cs.Live+"/"+cs.Warm+"/"+cs.Api+"/"+cs.Kind, 1)
+		}
 		for k, v := range res.Counters {
 			r.Count(k, v)
+			if len(res.Inconclusive) == 0 && (strings.HasPrefix(k, "removeall_runs") || strings.HasPrefix(k, "live_removals_through_the_long_lived_handle/")) {
+				scaleTot[k] += v
+			}
 		}
 		for set, members := range res.Sets {
 			for _, m := range members {
@@ -2957,10 +3041,28 @@ func runC14(tier, replay string) int {
 			fmt.Printf("replay of %s:\n%s\n", cs.Name, b)
 		}
 	}
-	min := r.Pick(100, 600)
+	min := r.Pick(130, 800)
 	if replay != "" {
 		min = 0
 	} else {
+		for _, want := range []string{"among-many/entity", "among-many/cache", "among-many/cli-rm", "among-many/rebuild-over-index",
+			"removeall_runs/cache-removeall/all", "removeall_runs/cache-removeall/bugs", "removeall_runs/entity-removeall/all", "removeall_runs/entity-removeall/bugs",
+			"removeall_runs_over_more_than_10_entities_of_a_namespace"} {
+			if scaleTot[want] == 0 {
+				r.Inconclusive("no removal of the class " + want + " (11..40 entities in the namespace) was carried out and judged")
+			}
+		}
+		for _, op := range []string{c14LiveAdd, c14LiveAddFetch, c14LiveRename, c14LiveRemove, c14LiveRemoveAdd} {
+			n := 0
+			for k, v := range scaleTot {
+				if strings.HasPrefix(k, "live_removals_through_the_long_lived_handle/"+op+"/") && !strings.HasSuffix(k, "/"+c14WarmNone) {
+					n += v
+				}
+			}
+			if n == 0 {
+				r.Inconclusive("no removal through a handle that had used its remote list before `git remote` changed the configuration under it (" + op + ") was carried out and judged")
+			}
+		}
 		for _, kind := range []string{"bug", "identity"} {
 			for _, want := range []string{"slash", "multi-slash", "ns-word", "dot", "dash"} {
 				seen := 0
@@ -2999,7 +3101,7 @@ func runC14(tier, replay string) int {
 			}
 		}
 	}
-	return r.Finish("before/after observation (ref table by gitraw and by git for-each-ref, .git/config key multiset, .git/git-bug listing, object set, cache answers, index hits) around a removal through bug.Remove / identity.Remove, RepoCache.{Bugs,Identities}().Remove(prefix), `git-bug bug rm` and `git-bug wipe`, in repositories with 0..3 remotes of which every subset holds the entity, 2..10 other entities with engineered shared id prefixes, at three points of an edit/push/pull history; followed by a second removal, reopen, rebuild from scratch and MergeAll without fetch. The removed entity is in one of four states: present locally (with 0..3 remote-tracking refs); fetched from 1..3 remotes and never merged (remote-tracking refs only); removed, fetched again, removed again (remote-tracking refs only); removed, pulled again, removed again. The remotes are named origin, origin2, peer, or (name cases) by 2..3 names of a set of unusual names git accepts: with one or several '/', with '.', '-', '_', a name that is a string or path prefix of another (team, team/alice, team/alice2, team/alice/laptop), the namespace words (bugs, identities) as name or path element; refs/remotes/<name>/<namespace>/<id> is recognised by the configured names, not by position. Configuration cases: 11 remote configurations that `git remote` produces and that are not one-name-one-absolute-URL: two and three NAMES of one URL (origin and upstream of one project; the victim pushed/fetched through all the names, through the last only, through the first only), a remote with a second url (`set-url --add`), with a pushurl different from its url, with a url relative to the work tree, a remote that was configured and never fetched (its URL an empty repository, or nothing at all), and a mix - with every API and victim state. Selection cases: `git-bug bug rm` after `git-bug bug select` of another bug, of the other bug sharing the longest id prefix with the victim, or of the victim itself; around the removal `bug rm` with an ambiguous prefix, with an id that never existed and with a mistyped prefix (before the removal, or after it and its repetition), the removal repeated, `bug show` without id (the selected bug must still be served), and last `bug rm` without id (refused: nothing may differ; accepted: only the selected bug may be gone); the refs of the selected bug are a class of their own (selected-bug-local / selected-bug-remote-tracking) and the selection file must keep its content unless it names the victim. A removal of an entity without local ref that returns an error (the cache API and the CLI cannot resolve such an entity) is recorded as refused and only its frame is judged. A case is non-trivial when the removal was carried out and everything could be observed; distinct = distinct (kind, API, history point, #remotes, #holding remotes, longest engineered shared prefix, cross-namespace twin, prefix mode, user identity set, bridge config, fetched-unmerged entity, pre-built cache, state of the victim, set of remote names, remote configuration, selection and position of the unknown ids)",
+	return r.Finish("before/after observation (ref table by gitraw and by git for-each-ref, .git/config key multiset, .git/git-bug listing, object set, cache answers, index hits) around a removal through bug.Remove / identity.Remove, RepoCache.{Bugs,Identities}().Remove(prefix), `git-bug bug rm` and `git-bug wipe`, in repositories with 0..3 remotes of which every subset holds the entity, 2..10 other entities with engineered shared id prefixes, at three points of an edit/push/pull history; followed by a second removal, reopen, rebuild from scratch and MergeAll without fetch. The removed entity is in one of four states: present locally (with 0..3 remote-tracking refs); fetched from 1..3 remotes and never merged (remote-tracking refs only); removed, fetched again, removed again (remote-tracking refs only); removed, pulled again, removed again. The remotes are named origin, origin2, peer, or (name cases) by 2..3 names of a set of unusual names git accepts: with one or several '/', with '.', '-', '_', a name that is a string or path prefix of another (team, team/alice, team/alice2, team/alice/laptop), the namespace words (bugs, identities) as name or path element; refs/remotes/<name>/<namespace>/<id> is recognised by the configured names, not by position. Configuration cases: 11 remote configurations that `git remote` produces and that are not one-name-one-absolute-URL: two and three NAMES of one URL (origin and upstream of one project; the victim pushed/fetched through all the names, through the last only, through the first only), a remote with a second url (`set-url --add`), with a pushurl different from its url, with a url relative to the work tree, a remote that was configured and never fetched (its URL an empty repository, or nothing at all), and a mix - with every API and victim state. Selection cases: `git-bug bug rm` after `git-bug bug select` of another bug, of the other bug sharing the longest id prefix with the victim, or of the victim itself; around the removal `bug rm` with an ambiguous prefix, with an id that never existed and with a mistyped prefix (before the removal, or after it and its repetition), the removal repeated, `bug show` without id (the selected bug must still be served), and last `bug rm` without id (refused: nothing may differ; accepted: only the selected bug may be gone); the refs of the selected bug are a class of their own (selected-bug-local / selected-bug-remote-tracking) and the selection file must keep its content unless it names the victim. Scale cases: the namespace of the removed entity holds 11..40 entities - one victim removed among many (entity API, cache API, CLI; with rebuild-keeps-index the cache rebuild deletes the cache files only and meets the search index of the earlier sessions), and RemoveAll of the whole population (RepoCache.RemoveAll, Bugs().RemoveAll, bug.RemoveAll + identity.RemoveAll over a cache and index built before): every ref of the emptied namespaces (local and remote-tracking of every configured remote) must go and no other ref, foreign config key, storage file or object may change; no removed id may be listed, resolved (by id, by prefix), returned by a query or found by its marker or by a marker every removed bug held, and the index document counts must equal the populations - in the same session, after a new identity and bug were created in the same session, after reopen, a second RemoveAll, a rebuild and MergeAll without fetch. Live cases: one handle (GoGitRepo, with the cache API the RepoCache over it) stays open, has used its remote list (GetRemotes, or the removal of another entity; or not at all), then stock git changes the configuration under it (remote add, rename, remove, remove+add), the handle pushes to / fetches from the remote that came out of it, and the victim is removed (or RemoveAll is run) through the same handle: the remote-tracking refs of every remote configured at that moment must go; MergeAll by the same handle and the usual persistence part follow. A removal of an entity without local ref that returns an error (the cache API and the CLI cannot resolve such an entity) is recorded as refused and only its frame is judged. A case is non-trivial when the removal was carried out and everything could be observed; distinct = distinct (kind, API, history point, #remotes, #holding remotes, longest engineered shared prefix, cross-namespace twin, prefix mode, user identity set, bridge config, fetched-unmerged entity, pre-built cache, state of the victim, set of remote names, remote configuration, selection and position of the unknown ids, scale family and population bucket, rebuild-keeps-index, RemoveAll scope, recreation, remote change under the handle and warm-up)",
 		min, []string{
 			"ids cannot be chosen: the configuration (sizes, shared prefix lengths, remotes) is a function of the seed, the concrete ids are not",
 			"removed identities never authored anything (removing an author breaks its bugs by design, the statement leaves that to the caller)",
@@ -3013,6 +3115,8 @@ func runC14(tier, replay string) int {
 			"several names of one URL: a name that (by the case) does not hold the victim is not fetched from once the victim is published; everything known through it was pushed by the repository itself before, so a merge without fetch still has nothing to do",
 			"selection: when the selection names the removed bug itself, whether the removal keeps or clears the selection file is not judged (the statement is silent); a dangling selection must only not hurt the next commands (`bug show` without id must not serve the removed bug, selecting another bug must work). `bug rm` without id: the documented usage is `rm BUG_ID`; a refusal must change nothing, an accepted one may only remove the selected bug",
 			"full-text assertions use planted marker tokens (zqNNx?k) that the English analyzer leaves alone",
+			"RemoveAll: the statement does not say what becomes of git-bug's own configuration keys (the selected user identity) when every identity is removed: only the keys outside git-bug.* are judged there; a second RemoveAll over an empty population may answer anything, it must change nothing",
+			"remote configuration changed under an open handle: only by `git remote add|rename|remove` of stock git, between two actions of the handle (never concurrently with one); after `git remote remove` the refs git itself left under refs/remotes/<removed name>/ (none with git 2.39) belong to no configured remote and must stay as they are",
 		})
 }
 
